@@ -63,6 +63,9 @@ def run(res, proofs_ok, proofs_why):
                 if mbytes != after:
                     diffs.append({"case": F.describe(r), "what": "file bytes after first publication differ from Open.after_first_publication",
                                   "impl_hex": after.hex(), "model_hex": mbytes.hex() if mbytes is not None else None})
+        if why and any("syscall:24:" in str(v) for v in list(r["rust"].values()) + list(r["c"].values())):
+            why.append("(errno 24 is EMFILE: the process, held to 96 descriptors, ran out of them - opens that failed on the files before "
+                       "this one did not give back what they had acquired; the outcome depends on the opens made before, replay runs the whole corpus)")
         if why:
             bad.append({"case": F.describe(r), "why": why})
     res.samples = [F.describe(results[i]) for i in (0, 10, len(results) // 2)]
